@@ -79,11 +79,16 @@ fn batch_with(v: Proto, leaf: &[u8], i: usize, n: usize, rng: &mut Rng) -> (Vec<
 
 /// The honest response to `request` (nonce extracted by I), signed in a batch of n at position i
 pub fn honest_parts(v: Proto, request: &[u8], keys: &Keys, i: usize, n: usize, midp: u64, rng: &mut Rng) -> Parts {
+    honest_parts_win(v, request, keys, i, n, midp, 0, u64::MAX, rng)
+}
+
+/// ... with an explicit delegation window (an honest server may certify any window that contains the midpoint)
+pub fn honest_parts_win(v: Proto, request: &[u8], keys: &Keys, i: usize, n: usize, midp: u64, mint: u64, maxt: u64, rng: &mut Rng) -> Parts {
     let nonce = proto::request_nonce(request).unwrap_or_default();
     let leaf = proto::leaf_data(v, request, &nonce);
     let (root, path) = batch_with(v, &leaf, i, n, rng);
     let srep = enc_srep(v, midp, &root);
-    let dele = enc_dele(&interp::pk_of_seed(&keys.olk), 0, u64::MAX);
+    let dele = enc_dele(&interp::pk_of_seed(&keys.olk), mint, maxt);
     Parts { framed: v == Proto::Ietf, sig: sign(&keys.olk, v.srep_ctx(), &srep), nonc: if v == Proto::Ietf { Some(nonce) } else { None },
             path, indx: i as u32, srep, cert_sig: sign(&keys.ltk, v.dele_ctx(), &dele), dele }
 }
@@ -364,8 +369,10 @@ pub fn record(out_path: &str, client_bin: &str, seed: u64, tier: &str) {
                 for midp in mids {
                     let mut served = vec![];
                     let mut sub = Rng::new(rng.next_u64());
+                    // the delegation window is any window containing the midpoint, including the tight ones
+                    let (mint, maxt) = match (k + (midp % 7) as usize) % 4 { 0 => (0, u64::MAX), 1 => (midp, u64::MAX), 2 => (0, midp), _ => (midp, midp) };
                     let run = run_client(client_bin, v, key_arg(&keys, keyopt), 1, &[], &sock, &mut |_, rq| {
-                        let d = assemble(&honest_parts(v, rq, &keys, *i, *n, midp, &mut sub));
+                        let d = assemble(&honest_parts_win(v, rq, &keys, *i, *n, midp, mint, maxt, &mut sub));
                         let mut f = facts(v, &d, rq, &pinned); f["honest"] = json!(true); served.push(f);
                         Some(d)
                     });
@@ -407,8 +414,8 @@ pub fn record(out_path: &str, client_bin: &str, seed: u64, tier: &str) {
         let v = if k % 2 == 0 { Proto::Google } else { Proto::Ietf };
         let keyopt = ["hex", "b64", "none"][(k / 2) % 3];
         let midp = now_midp(v);
-        let mode = k % 8;
-        let nreq = if mode == 0 || mode == 1 { 3 } else { 1 };
+        let mode = k % 9;
+        let nreq = if mode == 0 || mode == 1 { 3 } else if mode == 8 { 2 } else { 1 };
         let mut served = vec![];
         let mut sub = Rng::new(rng.next_u64());
         let mut first: Option<(Vec<u8>, Vec<u8>)> = None;
@@ -433,6 +440,14 @@ pub fn record(out_path: &str, client_bin: &str, seed: u64, tier: &str) {
                     let nn = proto::request_nonce(rq).unwrap_or_default();
                     let fake_req = proto::build_request(o, &nn, 1024, &[VER_DRAFT13], None);
                     assemble(&honest_parts(o, &fake_req, &keys, 0, 1, now_midp(o), &mut sub)) }
+                8 => { // certificate substitution in a multi-request run: the first response is genuine; the second pairs the
+                       // genuine CERT.SIG with a delegation to the adversary's key and a response signed by that key
+                    if j == 0 { honest.clone() } else {
+                        let mut p = honest_parts(v, rq, &keys, 0, 2, midp, &mut sub);
+                        p.dele = enc_dele(&interp::pk_of_seed(&keys.olkx), 0, u64::MAX);
+                        p.sig = sign(&keys.olkx, v.srep_ctx(), &p.srep);
+                        assemble(&p)
+                    } }
                 _ => { let mut m = honest.clone(); let nx = 4 * sub.range(1, 4) as usize; let extra = sub.bytes(nx); m.extend(extra); m }  // extension
             };
             if j == 0 { first = Some((rq.to_vec(), honest.clone())); }
@@ -443,7 +458,7 @@ pub fn record(out_path: &str, client_bin: &str, seed: u64, tier: &str) {
         for rq in &run.requests { if let Some(nn) = proto::request_nonce(rq) { nonces.push(nn); } }
         if let (Some((rq, resp)), true) = (first, mode == 0) { store.push((v, rq, resp)); if store.len() > 40 { store.remove(0); } }
         let exp = expect.clone();
-        emit_run(&mut out, ["multi-honest", "replay-in-run", "replay-across-runs", "truncation", "mutation", "resigned", "splice", "extension"][mode], v, keyopt, &run, &served, &exp, json!({}));
+        emit_run(&mut out, ["multi-honest", "replay-in-run", "replay-across-runs", "truncation", "mutation", "resigned", "splice", "extension", "cert-substitution"][mode], v, keyopt, &run, &served, &exp, json!({}));
         runs += 1;
     }
     // (4) freshness: every nonce the client ever sent in this session
@@ -467,15 +482,16 @@ pub fn record_real(out_path: &str, client_bin: &str, server_bin: &str, workdir: 
     let thorough = tier == "thorough";
     let mut runs = 0u64;
     let mut indices: std::collections::BTreeSet<u64> = Default::default();
-    for (k, workers) in [2u64, 1].iter().enumerate() {
-        let sc = json!({"id": format!("c03-real-{}", k), "num_workers": workers, "batch_size": 64});
+    // (workers, batch_size): with a small batch size a multi-request run spans several batches of one wake-up
+    for (k, (workers, batch)) in [(2u64, 64u64), (1, 64), (1, 8)].iter().enumerate() {
+        let sc = json!({"id": format!("c03-real-{}", k), "num_workers": workers, "batch_size": batch});
         let mut sp = match s_proc::start_server(server_bin, &sc, workdir) { Ok(s) => s, Err(e) => { eprintln!("{}", e); std::process::exit(2); } };
         let (ready, _, _) = sp.wait_started(6000);
         if ready as u64 != *workers { eprintln!("real server did not start ({} of {} workers)", ready, workers); sp.kill_and_reap(); std::process::exit(2); }
         let seed32: [u8; 32] = sp.seed.clone().try_into().unwrap();
         let pinned = interp::pk_of_seed(&seed32);
         let relay = UdpSocket::bind("127.0.0.1:0").expect("bind relay");
-        let nreqs: Vec<usize> = if thorough { vec![1, 2, 3, 8, 33, 64, 64] } else { vec![1, 8, 64] };
+        let nreqs: Vec<usize> = if *batch == 8 { vec![12, 33] } else if thorough { vec![1, 2, 3, 8, 33, 64, 64] } else { vec![1, 8, 64] };
         for v in [Proto::Google, Proto::Ietf] {
             for keyopt in ["none", "hex", "b64"] {
                 for nreq in &nreqs {
